@@ -233,6 +233,29 @@ def work(item):
                     okp = False
                 elif rr != 'unsat':
                     out['undecided'].append('geti-sorted nx=%d rounding-model range test' % nx)
+            if kind == 'geti-sorted' and nx <= 3:
+                # and over IEEE binary64 values themselves (finite nodes and x, tiny and huge magnitudes included): a test that goes through
+                # rounded arithmetic can underflow or overflow where exact comparisons cannot
+                cf = S.Conv('fp')
+                zgf = [zc(cf, v) for v in grid]
+                zxf = cf.conv(x)
+                fin_ = [z3.Not(z3.Or(z3.fpIsNaN(v_), z3.fpIsInf(v_))) for v_ in cf.vars.values() if z3.is_fp(v_)]
+                wrongf = z3.And(z3.fpGEQ(zxf, zgf[0]), z3.fpLEQ(zxf, zgf[-1])) if p.ret == 1 else z3.Or(z3.fpLT(zxf, zgf[0]), z3.fpGT(zxf, zgf[-1]))
+                big_ = solver.timeout_ms
+                solver.timeout_ms = 120000
+                rf, mf, _ = solver.check(p.pc, conv=cf, extra=fin_ + [wrongf], want_model=True,
+                                         label='geti-sorted nx=%d over Float64 values: %s' % (nx, 'x inside the node range is never rejected' if p.ret == 1 else 'x outside the node range is never accepted'))
+                solver.timeout_ms = big_
+                if rf == 'sat':
+                    vals = {}
+                    for nm_ in names:
+                        if nm_ in cf.vars:
+                            q_ = mf.eval(z3.fpToReal(cf.vars[nm_]), model_completion=True)
+                            vals[nm_] = frac_str(Fraction(q_.numerator_as_long(), q_.denominator_as_long()))
+                    cand('geti:range-test-float64', 'over binary64 values Get_i %s' % ('rejects an x inside [x_first,x_last]' if p.ret == 1 else 'accepts an x outside [x_first,x_last]'), input=vals)
+                    okp = False
+                elif rf != 'unsat':
+                    out['undecided'].append('geti-sorted nx=%d Float64 range test' % nx)
             if p.ret == 1:
                 r, m, _ = solver.check(p.pc, conv=conv, extra=[inside], label='%s nx=%d: exception only for x outside [x_first,x_last]' % (kind, nx), want_model=True)
                 if r == 'sat':
